@@ -1,6 +1,6 @@
 (* C07 -- Inline markup renders to the intended structure (partial: see MANIFEST level text). *)
 From Rimu Require Import Base Unicode Regex RegexAnalysis RegexParse Str Types Tables Guards State Inline Block
-  Frame FrameBlock FrameInst OptionsLemmas MiscLemmas MoreLemmas Plain TableFacts.
+  Frame FrameBlock FrameInst OptionsLemmas MiscLemmas MoreLemmas Plain TableFacts PlainDoc Lines.
 
 (* All other characters come through unchanged except that <, > and & are escaped: inline text over the
    plain alphabet (letters, digits, blanks, newline and the punctuation that is part of no markup; decided for
@@ -29,6 +29,13 @@ Print Assumptions C07_escaped_frozen.
 Theorem C07_escape : forall s, ~ In 60 (escape s) /\ ~ In 62 (escape s).
 Proof. exact escape_no_lt_gt. Qed.
 Print Assumptions C07_escape.
+
+(* the same end to end through the block layer: the line becomes <p>escaped line</p> *)
+Theorem C07_plain_document : forall n l s,
+  quiet_default s -> safe_line l ->
+  doc_render (S (S (S (S (S n))))) l s = Ok ($"<p>" ++ escape l ++ $"</p>", s).
+Proof. exact plain_line_document. Qed.
+Print Assumptions C07_plain_document.
 
 Example C07_ex_plain : plain_text $"Hello world, 1 > 0 (really)!" .
 Proof. intros x Hx. vm_compute in Hx. vm_compute. intuition. Qed.
